@@ -18,7 +18,8 @@ from .core import Obligation, DISCHARGED, FAILED, UNDECIDED, BOUNDED, ERROR
 
 class Contract:
     def __init__(self, prop, cid, fn, params, functions, bounded, timeout, sampler, nsamples,
-                 tiers, max_paths):
+                 tiers, max_paths, search=300):
+        self.search = search
         self.prop, self.cid, self.fn = prop, cid, fn
         self.params = params
         self.functions = tuple(functions)
@@ -34,7 +35,7 @@ REGISTRY = []
 
 
 def contract(prop, cid, params=None, functions=(), bounded=None, timeout=30, sampler=None,
-             nsamples=4, tiers=("quick", "thorough"), max_paths=3000):
+             nsamples=4, tiers=("quick", "thorough"), max_paths=3000, search=300):
     """register `fn(ctx, **params)`; `params` is a list of dicts or a dict name->list (product).
     `bounded`: string describing a shape bound => obligations are reported BOUNDED not proved."""
     if params is None:
@@ -47,7 +48,7 @@ def contract(prop, cid, params=None, functions=(), bounded=None, timeout=30, sam
 
     def deco(fn):
         REGISTRY.append(Contract(prop, cid, fn, plist, functions, bounded, timeout, sampler,
-                                 nsamples, tiers, max_paths))
+                                 nsamples, tiers, max_paths, search))
         return fn
     return deco
 
@@ -236,7 +237,7 @@ def run_job(args):
                 except Exception as e:
                     witness, why = vals, "solver model replayed natively: exception %r" % (e,)
             if witness is None:
-                witness, why = native_search(name, 300 if tier == "quick" else 3000)
+                witness, why = native_search(name, c.search if tier == "quick" else 10 * c.search)
             if witness is not None:
                 ent["status"] = FAILED
                 ent["witness"] = {"inputs": witness, "params": {k: _short(v) for k, v in p.items()},
